@@ -36,7 +36,7 @@ CAT = list(GB.CATALOGUE) + ["Robertson"]      # Robertson: stiff, parameter-free
 
 def plan(tier):
     q = tier == "quick"
-    return [{"lane": "main", "n": 64 if q else 4000, "timeout": 900 if q else 3300, "min_per_shard": 2},
+    return [{"lane": "main", "n": 64 if q else 3000, "timeout": 900 if q else 3300, "min_per_shard": 2},
             {"lane": "catalogue", "n": 26 if q else 650, "timeout": 900 if q else 3300, "min_per_shard": 1}]
 
 
